@@ -42,6 +42,11 @@ chk("C17",
     "Trusted: TLC; virtual clocks (twisted Clock / VLoop) standing in for the reactor; projection of pending delayed calls.",
     "TLA+ spec (WsConn.tla) with explicit discrete time model-checked with TLC; TLC batch trace validation comparing timer due times (WsConnTrace.tla)", "5/C17")
 
+chk("C12",
+    "spec/Pmce.tla is the permessage-deflate negotiation (offer, accept with local overrides, response, response-accept, effective per-direction parameters); TLC checks InvResponseWithinOffer and InvDirectionCompatible on the complete lattice (117k states); every lattice point (quick: every 6th (offer, accept) pair with all 24 response-accepts) is replayed through the real classes and the real extension header strings and PmceTrace.tla compares raises/response/effective parameters of both PerMessageDeflate objects; the client handshake is executed on responses with every extension fault; message-level losslessness is validated on real client/server pairs (deflate parameter grid, bzip2, brotli, doNotCompress, all send APIs, fragmentation, boundary cuts) by WsChannelTrace.tla (RSV1 exactly on the first frame of a compressed message; identical delivery). Compressed control frames / RSV1 on continuation are cells of C02's table.",
+    "Trusted: TLC; zlib/bz2/brotli; harness byte comparison. snappy is not installed and not exercised.",
+    "TLA+ spec (Pmce.tla) model-checked exhaustively with TLC; lattice replay into the real classes validated by TLC (PmceTrace.tla); TLC trace validation of compressed pair traffic (WsChannelTrace.tla)", "5/C12")
+
 NA_ALL = ["C%02d" % i for i in range(1, 21)]
 for p in NA_ALL:
     if p not in CHECKS:
